@@ -169,6 +169,17 @@ func main() {
 		}
 		cases = append(cases, tcase{sc, 2, 2})
 	}
+	// no step of this sub-check waits without a deadline of its own, but it drives real processes: a run that has not
+	// finished long after every deadline has passed is reported as an engine error instead of hanging
+	go func() {
+		d := 6*time.Minute
+		if !c.Quick() {
+			d *= 3
+		}
+		time.Sleep(d)
+		c.EngineError("watchdog: the sub-check did not finish within %v", d)
+		c.Finish("watchdog")
+	}()
 	if c.Replay != "" {
 		fmt.Println("replay: the case (scheme, reset moment, number of resets) is described in the replay file; ./check C10 quick re-runs it")
 		os.Exit(0)
